@@ -23,7 +23,7 @@ RULE = ("cases = (a) a 6-statement script (table with inline and table-level ref
         "(exhaustive); (c) every grammar keyword x 3 spellings as undelimited table, schema, constraint, index, sequence, type, "
         "referenced-table and ALTER-target name (exhaustive; the words that fail on the pinned tree are listed known findings). "
         "Non-trivial = at least one identifier is delimited, mixed-case or keyword-shaped; distinct = distinct (DDL, setting)."
-        " Added after seeded defects: keyword-shaped column names re-used in 10 key/reference/index/ALTER list positions, names that merely start with a keyword (every keyword x 4 suffixes x 7 positions), names with # $ @, ARRAY-prefixed names (exact-spelling known findings), normalize_names handed over through parse_from_file, a column renamed by ALTER (old and new name as roles), a project-qualified three-part table name and reference (roles P, T3), 30% of the scripts in the compact layout (nothing after commas).")
+        " Added after seeded defects: keyword-shaped column names re-used in 10 key/reference/index/ALTER list positions, names that merely start with a keyword (every keyword x 4 suffixes x 7 positions), names with # $ @, ARRAY-prefixed names (exact-spelling known findings), normalize_names handed over through parse_from_file, a column renamed by ALTER (old and new name as roles), a project-qualified three-part table name and reference (roles P, T3), 30% of the scripts in the compact layout (nothing after commas), a sort direction on the second key column, a CREATE SCHEMA name (role SC).")
 ASSUMPTIONS = ["each identifier is unique within its script (so an identifier-aware textual strip is unambiguous)",
                "an identifier keeps the same spelling everywhere it is used in one script"]
 MIN_EVENTS = {"statements": 100, "run_return": 100}
@@ -90,7 +90,7 @@ def make_ident(rng, base, classes=None):
     raise ValueError(cls)
 
 
-ROLES = ["S", "T", "A", "B", "C", "CN", "UQ", "CK", "IX", "FK", "RT", "RC", "RS", "SQ", "TY", "DM", "D", "IK", "E", "F", "P", "T3"]
+ROLES = ["S", "T", "A", "B", "C", "CN", "UQ", "CK", "IX", "FK", "RT", "RC", "RS", "SQ", "TY", "DM", "D", "IK", "E", "F", "P", "T3", "SC"]
 
 
 def gen_script(rng, classes=None):
@@ -100,6 +100,14 @@ def gen_script(rng, classes=None):
         while True:
             base = "%s%sx%d" % (rng.choice(["My", "Col", "Tab", "Zq", "Nm"]), role.capitalize(), rng.randint(10, 99))
             ident = make_ident(rng, base, classes)
+            if role == "SC" and "`" in ident[0]:
+                # back quotes in a CREATE SCHEMA name are removed by design (BigQuery paths, pinned by the suite): not a name form of this role
+                for _try in range(30):
+                    ident = make_ident(rng, base, ["lower", "upper", "mixed", "dq", "br", "underscore", "digit"])
+                    if "`" not in ident[0]:
+                        break
+                else:
+                    ident = (base, base)
             if ident[1].lower() not in seen and not any(ident[1].lower() in o or o in ident[1].lower() for o in seen):
                 break
         seen.add(ident[1].lower())
@@ -107,7 +115,7 @@ def gen_script(rng, classes=None):
     g = {k: v[0] for k, v in ids.items()}
     ddl = (
         "CREATE TABLE {S}.{T} (\n  {A} int NOT NULL,\n  {B} varchar(10) REFERENCES {RS}.{RT} ({RC}),\n  {C} date,\n  {D} {S}.{TY} NOT NULL,\n  {E} int,\n"
-        "  CONSTRAINT {CN} PRIMARY KEY ({A}, {B}),\n  CONSTRAINT {UQ} UNIQUE ({B}, {C}, {A}, {D}),\n  CONSTRAINT {CK} CHECK ({A} > 0),\n"
+        "  CONSTRAINT {CN} PRIMARY KEY ({A}, {B} DESC),\n  CONSTRAINT {UQ} UNIQUE ({B}, {C}, {A}, {D}),\n  CONSTRAINT {CK} CHECK ({A} > 0),\n"
         "  FOREIGN KEY ({C}) REFERENCES {RT} ({RC}) ON DELETE CASCADE,\n  KEY {IK} ({B})\n);\n"
         "CREATE UNIQUE INDEX {IX} ON {S}.{T} ({A} ASC, {B} DESC);\n"
         "ALTER TABLE {S}.{T} ADD CONSTRAINT {FK} FOREIGN KEY ({A}) REFERENCES {RS}.{RT} ({RC});\n"
@@ -116,6 +124,7 @@ def gen_script(rng, classes=None):
         "CREATE TYPE {S}.{TY} AS ENUM ('a', 'b');\n"
         "CREATE DOMAIN {S}.{DM} AS varchar(10);\n"
         "CREATE TABLE {P}.{S}.{T3} ({A} int REFERENCES {P}.{RS}.{RT} ({RC}), {B} int);\n"
+        "CREATE SCHEMA {SC};\n"
     ).format(**g)
     layout = "spaced"
     if rng.random() < 0.3:
@@ -154,6 +163,7 @@ def expected_positions(g):
         (("4", "schema"), g["S"]), (("4", "table_name"), g["T3"]), (("4", "table_properties", "project"), g["P"]), (("4", "columns", "*name"), [g["A"], g["B"]]),
         (("4", "columns", 0, "references", "project"), g["P"]), (("4", "columns", 0, "references", "schema"), g["RS"]),
         (("4", "columns", 0, "references", "table"), g["RT"]), (("4", "columns", 0, "references", "column"), g["RC"]),
+        (("5", "schema_name"), g["SC"]),
     ]
 
 
@@ -198,8 +208,8 @@ def check_positions(ctx, case):
             return
         ents = entities(r[1])
         results[nn] = ents
-        if len(ents) != 5:
-            ctx.violation("entity_count", dict(case, normalize_names=nn), {"observed": len(ents), "expected": 5, "kinds": [sorted(e)[:3] for e in ents]})
+        if len(ents) != 6:
+            ctx.violation("entity_count", dict(case, normalize_names=nn), {"observed": len(ents), "expected": 6, "kinds": [sorted(e)[:3] for e in ents]})
             return
         g = {k: (v[1] if nn else v[0]) for k, v in ids.items()}
         for path, exp in expected_positions(g):
